@@ -292,6 +292,13 @@ Proof.
   - destruct A.
   - destruct (add_check id d tok loc st) as [st1 r1] eqn:E1. intros [= <- <- _ _ _].
     split; [eapply add_check_wf; eauto|exact Wc].
+  - unfold add_check_agent. destruct (N.eqb_spec (ck_sid d) 0) as [Z|Z].
+    + destruct (add_check id d tok loc st) as [st1 r1] eqn:E1. intros [= <- <- _ _ _].
+      split; [eapply add_check_wf; eauto|exact Wc].
+    + destruct (l_svcs st !! ck_sid d) as [s|] eqn:Ls; [|intros [= <- <- _ _ _]; auto].
+      destruct (se_del s) eqn:Ds; [intros [= <- <- _ _ _]; auto|].
+      destruct (add_check id d tok loc st) as [st1 r1] eqn:E1. intros [= <- <- _ _ _].
+      split; [eapply add_check_wf; eauto|exact Wc].
   - destruct (remove_check id st) as [st1 r1] eqn:E1. intros [= <- <- _ _ _].
     split; [eapply remove_check_wf; eauto|exact Wc].
   - intros [= <- <- _ _ _]. split; [apply update_check_wf; exact W|exact Wc].
